@@ -158,6 +158,39 @@ def guarded_probe(*a, **k):
         return e
 
 
+def sized_probe(P=1, mp=False):
+    """K=3, scripted initial labelling with cluster sizes 10/20/15 for ids 0/1/2 (largest-first order is the
+    3-cycle (1,2,0), not its own inverse), real pool, num_processors = P"""
+    import fast_ticc
+    rng = np.random.default_rng(5150)
+    parts = [rng.normal(0.0, 1.0, size=(10, 2)), rng.normal(4.0, 0.5, size=(20, 2)), rng.normal(-4.0, 0.8, size=(15, 2))]
+    series = np.round(np.concatenate(parts), 3)
+    init = [0] * 10 + [1] * 20 + [2] * 15
+    if mp:
+        os.environ["CUPCAKE_ENABLE_MULTIPROCESSING"] = "1"
+    else:
+        os.environ.pop("CUPCAKE_ENABLE_MULTIPROCESSING", None)
+    TRACER.install()
+    TRACER.deep = False
+    TRACER.begin(init_labels=init, pool_factory="real", real_random=True)
+    try:
+        return fast_ticc.ticc_labels(series.copy(), window_size=1, num_clusters=3, sparsity_weight=0.11,
+                                     label_switching_cost=2.0, iteration_limit=3, num_processors=P, min_cluster_size=2)
+    except HarnessError:
+        raise
+    except Exception as e:
+        return e
+    finally:
+        os.environ.pop("CUPCAKE_ENABLE_MULTIPROCESSING", None)
+
+
+def task_sized(task):
+    from vlib import lib
+    lib.load("nojit")
+    (P, mp) = task
+    return result_digest(sized_probe(P, mp))
+
+
 def task_reference(task):
     from vlib import lib
     lib.load("nojit")
@@ -231,6 +264,15 @@ def history_call(shape):
                 S = np.eye(n) + 0.3 * np.ones((n, n))
                 admm.admm_optimize_theta(S, 0.2, W, N, max_iterations=30)
                 admm.admm_optimize_theta(S, np.full((n, n), 0.1), W, N, max_iterations=30)
+        elif shape == "same_data_other_seed":
+            # exactly the probe's call, from a different state of the global generators
+            for KK in (2, "repop"):
+                try:
+                    probe_call(KK, seed=4711)
+                except HarnessError:
+                    raise
+                except Exception:
+                    pass
         elif shape == "failing":
             try:
                 fast_ticc.ticc_labels([np.zeros((5, 2))], window_size=2, num_clusters=2)
@@ -250,7 +292,7 @@ def history_call(shape):
         pass        # a history call that raises is still a history
 
 
-SHAPES = ("other_shape", "same_shape", "joint", "failing", "solver_in_process")
+SHAPES = ("other_shape", "same_shape", "joint", "failing", "solver_in_process", "same_data_other_seed")
 
 
 def task_history(task):
@@ -330,6 +372,17 @@ def run(ctx):
                 acc.fail({"kind": "repeat", "K": KK}, f"two same-seed runs ({KK}) in one process differ")
             if a != c:
                 acc.fail({"kind": "repeat", "K": KK}, f"same-seed runs ({KK}) in two processes differ")
+    # (2b) worker count alone, on a probe whose clusters have distinct sizes (anything that reorders tasks by
+    # size and puts results back must be the identity on the result)
+    sized = [(P, mp) for mp in (False, True) for P in range(1, 9)]
+    outs = realpool.fresh_map(task_sized, sized, jobs=8, timeout=120)
+    for t, o in zip(sized, outs):
+        acc.n += 1
+        acc.nontrivial += 1
+        if o != outs[0]:
+            acc.fail({"kind": "sized", "P": t[0], "multiprocessing": t[1]},
+                     f"num_processors={t[0]} multiprocessing={'on' if t[1] else 'off'}: result differs from num_processors=1 "
+                     f"(clusters of sizes 10/20/15)")
     # (4) histories
     h = 3 if ctx.thorough else 2
     hists = [()]
@@ -355,7 +408,7 @@ def run(ctx):
         "exhaustive when (K!(K+1))^rounds <= 1300, else every script with <= 2 (K=3 quick: 1) non-default rounds; (2) real multiprocessing.Pool, default "
         "GMM path with seeded global RNGs: num_processors 1..8 x CUPCAKE_ENABLE_MULTIPROCESSING off/on x every "
         "feasible forced completion permutation (handshake), and for P in {K, 8} every (permutation, finished-before-the-parent-looks) script as on the virtual pool; a schedule "
-        "whose arrival log differs from its script is a harness error; (3) same seeds twice in one process and "
+        "whose arrival log differs from its script is a harness error; (2b) num_processors 1..8 x multiprocessing off/on on a scripted K=3 probe with cluster sizes 10/20/15; (3) same seeds twice in one process and "
         "across processes, for the ordinary probe and for a probe that repopulates (draws from the global Python generator); (4) every history of up to " + str(h) + " preceding calls from "
         + str(list(SHAPES)) + " before the probe, each history in its own fresh process. Oracle: complete result "
         "bitwise equal to the reference. non-trivial = non-default orders / non-empty histories")
@@ -382,6 +435,11 @@ def replay(ctx, case):
         acc.n = 1
         if o["digest"] != refd:
             acc.fail(case, "result differs from the single-pool reference")
+    elif k == "sized":
+        outs = realpool.fresh_map(task_sized, [(1, False), (case["P"], case["multiprocessing"])])
+        acc.n = 1
+        if outs[0] != outs[1]:
+            acc.fail(case, "result depends on num_processors")
     elif k == "history":
         outs = realpool.fresh_map(task_history, [((),), (tuple(case["history"]),)])
         acc.n = 1
